@@ -58,7 +58,12 @@ def make_case(rc):
         # a lookup written as a formula over a workbook: checks translator defaults and reference resolution,
         # then is compared with the model applied to the values the workbook holds
         cells = {a: d(v) for a, v in rc['cells'].items()}
-        if rc.get('xsheet'):
+        if rc.get('append'):
+            # the table's last rows are NOT in the workbook: they are supplied through set_cells (the area written in the formula covers them)
+            ovs = [I.Cell(0, *I.a1(a), d(v)) for a, v in rc['append'].items()]
+            base = {a: v for a, v in cells.items() if a not in rc['append']}
+            out = I.eval_formula(rc['formula'], base, addr='H1', overrides=ovs)
+        elif rc.get('xsheet'):
             # the table lives on ANOTHER sheet; the formula's own sheet holds other values at the same coordinates
             own = {a: I._perturbed(v) for a, v in cells.items()}
             out = I.eval_formula(rc['formula'].replace('A1:', 'Data!A1:'), addr='H9', sheets=[('S', own), ('Data', cells)])
@@ -196,7 +201,11 @@ def gen_formula_recipes(rng, n):
             rr, cc = rng.randint(1, rows + 1), rng.randint(1, 4)
             f = '=INDEX(A1:C%d,%d,%d)' % (rows, rr, cc)
             head = 'CIndex %s %s %s %s' % (C.clist(tj), C.cz(rr), C.copt(cc, C.cz), C.cz(1))
-        out.append({'kind': 'formula', 'formula': f, 'cells': cells, 'coq_head': head, 'xsheet': rng.random() < 0.4})
+        rec = {'kind': 'formula', 'formula': f, 'cells': cells, 'coq_head': head, 'xsheet': rng.random() < 0.4}
+        if not rec['xsheet'] and rows >= 3 and rng.random() < 0.35:
+            k = rng.randint(1, 2)
+            rec['append'] = {a: v for a, v in cells.items() if int(a[1:]) > rows - k}
+        out.append(rec)
     return out
 
 
